@@ -12,6 +12,8 @@ namespace MapMatch
 
 open Json
 
+set_option linter.unusedSectionVars false
+
 /-! ### JSON objects -/
 
 /-- the entries whose key is not in `W`, in order -/
@@ -161,6 +163,140 @@ theorem Sorted.head_le {β : Type} {d2 : β → α} {c : β} {rest : List β} (h
 
 theorem Sorted.tail {β : Type} {d2 : β → α} {c : β} {rest : List β} (h : Sorted d2 (c :: rest)) :
     Sorted d2 rest := (List.pairwise_cons.mp h).2
+
+end
+
+
+/-! ### shapes of the two `process` functions (used by Props/C16) -/
+
+section
+variable {α : Type} [_root_.Field α] [LinearOrder α] [IsStrictOrderedRing α] [Lit α] [LawfulLit α]
+
+/-! ### shape of a successful vertex match -/
+
+theorem matchVertexInto_ok {tol : Option (α × DistanceUnit)} {q q' : Json} {f : Field} {cands : List (VCand α)}
+    (h : matchVertexInto tol q f cands = .ok q') :
+    ∃ c rest kvs, cands = c :: rest ∧ validateTolerance tol c = .ok () ∧ q = .obj kvs ∧
+      q' = .obj (insertKv kvs f.name (idJson c.id)) := by
+  unfold matchVertexInto nearestVertex at h
+  cases cands with
+  | nil => simp at h
+  | cons c rest =>
+    simp only [List.head?_cons] at h
+    split at h
+    · cases h
+    · next hv =>
+      obtain ⟨kvs, rfl, rfl⟩ := addField_ok h
+      exact ⟨c, rest, kvs, rfl, hv, rfl, rfl⟩
+
+/-- everything that is true when `RTreePlugin::process` returns `Ok` -/
+theorem vertexProcess_ok {tol : Option (α × DistanceUnit)} {q : Json} {oc dc : List (VCand α)}
+    (h : (vertexProcess tol q oc dc).err = none) :
+    ∃ co ro kvs, oc = co :: ro ∧ validateTolerance tol co = .ok () ∧ q = .obj kvs ∧
+      ((destinationCoordinate q = .ok false ∧
+          (vertexProcess tol q oc dc).query =
+            .obj (insertKv kvs Field.originVertex.name (idJson co.id))) ∨
+       (destinationCoordinate q = .ok true ∧ ∃ cd rd, dc = cd :: rd ∧ validateTolerance tol cd = .ok () ∧
+          (vertexProcess tol q oc dc).query =
+            .obj (insertKv (insertKv kvs Field.originVertex.name (idJson co.id))
+              Field.destinationVertex.name (idJson cd.id)))) := by
+  unfold vertexProcess at h ⊢
+  cases ho : originCoordinate q with
+  | error e => simp [ho] at h
+  | ok _ =>
+    cases hd : destinationCoordinate q with
+    | error e => simp [ho, hd] at h
+    | ok hasDst =>
+      cases hm : matchVertexInto tol q .originVertex oc with
+      | error e => simp [ho, hd, hm] at h
+      | ok q1 =>
+        obtain ⟨co, ro, kvs, rfl, hv, rfl, rfl⟩ := matchVertexInto_ok hm
+        refine ⟨co, ro, kvs, rfl, hv, rfl, ?_⟩
+        cases hasDst with
+        | false => left; simp
+        | true =>
+          right
+          cases hm2 : matchVertexInto tol
+              (.obj (insertKv kvs Field.originVertex.name (idJson co.id))) .destinationVertex dc with
+          | error e => simp [ho, hd, hm, hm2] at h
+          | ok q2 =>
+            obtain ⟨cd, rd, kvs2, rfl, hv2, hq, rfl⟩ := matchVertexInto_ok hm2
+            injection hq with hq
+            subst hq
+            exact ⟨rfl, cd, rd, rfl, hv2, by simp [hm2]⟩
+
+/-- what the code's tolerance test demands of the chosen vertex: a great-circle distance exists and,
+converted into the tolerance's unit, is strictly below the tolerance -/
+def Passes (tol : Option (α × DistanceUnit)) (c : VCand α) : Prop :=
+  match tol with
+  | none => True
+  | some (t, u) => ∃ g, c.gc = some g ∧ DistanceUnit.meters.convert u g < t
+
+theorem validateTolerance_ok_iff (tol : Option (α × DistanceUnit)) (c : VCand α) :
+    validateTolerance tol c = .ok () ↔ Passes tol c := by
+  unfold validateTolerance Passes
+  cases tol with
+  | none => simp
+  | some tu =>
+    obtain ⟨t, u⟩ := tu
+    cases hg : c.gc with
+    | none => simp
+    | some g =>
+      simp only [Option.some.injEq, exists_eq_left']
+      split
+      · next h => simp [not_lt.mpr h]
+      · next h => simp [not_le.mp h]
+
+theorem validateTolerance_beyond_iff (t : α) (u : DistanceUnit) (c : VCand α) :
+    validateTolerance (some (t, u)) c = .error .beyondTolerance ↔
+      ∃ g, c.gc = some g ∧ t ≤ DistanceUnit.meters.convert u g := by
+  unfold validateTolerance
+  cases hg : c.gc with
+  | none => simp
+  | some g =>
+    simp only [Option.some.injEq, exists_eq_left']
+    split
+    · next h => simp [h]
+    · next h => simp [h]
+
+theorem meters_factor_wf : ∀ u : DistanceUnit, (DistanceUnit.factor .meters u).wf = true := by
+  intro u; cases u <;> decide
+
+/-- passes the road-class filter and the vehicle restrictions -/
+def Admissible (classes : Option (List Nat)) (hasLookup : Bool) (c : ECand α) : Prop :=
+  validClass classes hasLookup c = .ok true ∧ c.vehOk = true
+
+theorem validClass_error (classes : Option (List Nat)) (hasLookup : Bool) (c : ECand α) (e : Err)
+    (h : validClass classes hasLookup c = .error e) :
+    e = .roadClassMissing ∧ hasLookup = true ∧ classes.isSome ∧ c.cls = none := by
+  unfold validClass at h
+  split at h
+  · split at h
+    · next hc => injection h with h; exact ⟨h.symm, rfl, rfl, hc⟩
+    · cases h
+  · cases h
+
+theorem matchVertexInto_sameOthers {W : List String} {tol : Option (α × DistanceUnit)} {q q' : Json} {f : Field}
+    {cands : List (VCand α)} (hW : f.name ∈ W) (h : matchVertexInto tol q f cands = .ok q') :
+    SameOthers W q q' := by
+  obtain ⟨c, rest, kvs, rfl, _, rfl, rfl⟩ := matchVertexInto_ok h
+  exact ⟨_, rfl, keep_insertKv W _ _ hW kvs⟩
+
+theorem destinationCoordinate_false_iff (q : Json) :
+    destinationCoordinate q = .ok false ↔ q.get? "destination_x" = none ∧ q.get? "destination_y" = none := by
+  unfold destinationCoordinate
+  simp only [Field.name]
+  constructor
+  · intro h
+    split at h
+    · next h1 h2 => exact ⟨h1, h2⟩
+    · cases h
+    · cases h
+    · split at h
+      · cases h
+      · split at h <;> cases h
+  · rintro ⟨h1, h2⟩
+    rw [h1, h2]
 
 end
 
